@@ -284,6 +284,13 @@ pub fn gen_system(rng: &mut Rng) -> System {
         f.retain(|(_, e)| !e.is_zero());
         cs.push(format!("(isd {})", dtype_text(&f)));
     }
+    if rng.chance(1, 5) {
+        // closed dimension types, with and without type parameters (`fn f<D>(x: D) = -x`: the bound is checked by
+        // the solver, not dropped as trivial)
+        let forms = ["(isd (d p:D^1/1))", "(isd (d p:D^2/1 b:Length^-1/1))", "(isd (d p:A^1/2 p:D^1/1))", "(isd (d b:Length^1/1))", "(isd (d))"];
+        let at = rng.below(cs.len() + 1);
+        cs.insert(at, rng.pick(&forms).to_string());
+    }
     System { text: cs.join(" "), shape, size: cs.len() }
 }
 
